@@ -64,7 +64,54 @@ def _lit(c, tr):
     return ('T' if tr else 'F', c)
 
 
-def summary(fnode, name_map=None, call_alias=None, unroll=(0, 1, 2), ignore_calls=(), env=None, drop_doc=True, track_calls=(), strict_casts=False):
+class Inline(object):
+    """which calls a summary may look through: callees that resolve (from `finfo`) to functions of the analysed package, that
+    the reference being compared with does not itself mention (`known` names stay opaque on both sides), up to `depth` levels.
+    This is what lets a rule see through an extracted private helper or nested function."""
+
+    def __init__(self, model, finfo, known=(), depth=2):
+        self.model, self.finfo, self.known, self.depth = model, finfo, set(known), depth
+
+    def target(self, call):
+        if self.depth <= 0 or not isinstance(call, ast.Call) or not isinstance(call.func, ast.Name):
+            return None
+        name = call.func.id
+        if name in self.known or any(isinstance(a, ast.Starred) for a in call.args) or any(k.arg is None for k in call.keywords):
+            return None
+        r = self.model.resolve_in_func(self.finfo, name)
+        if not r or r[0] != 'func':
+            return None
+        g = r[1]
+        a = g.node.args
+        if g.cls is not None or a.vararg or a.kwarg or a.kwonlyargs or g is self.finfo:
+            return None
+        if any(isinstance(n, (ast.Yield, ast.YieldFrom)) for n in ast.walk(g.node)):
+            return None
+        return g
+
+    def bind(self, g, call, b):
+        a = g.node.args
+        params = [x.arg for x in a.posonlyargs + a.args]
+        if len(call.args) > len(params):
+            return None
+        env = {}
+        for p_, arg in zip(params, call.args):
+            env[p_] = T.simp(b.t(arg))
+        for k in call.keywords:
+            if k.arg not in params or k.arg in env:
+                return None
+            env[k.arg] = T.simp(b.t(k.value))
+        for p_, d in zip(params[len(params) - len(a.defaults):], a.defaults):
+            env.setdefault(p_, T.term(d))
+        if set(params) - set(env):
+            return None
+        return env
+
+    def deeper(self, g):
+        return Inline(self.model, g, self.known, self.depth - 1)
+
+
+def summary(fnode, name_map=None, call_alias=None, unroll=(0, 1, 2), ignore_calls=(), env=None, drop_doc=True, track_calls=(), strict_casts=False, inline=None):
     paths = enumerate_paths(fnode, unroll=unroll)
     out = set()
     # bare expression statements inside a try body with handlers are probes (`-x` raising TypeError selects the handler)
@@ -75,14 +122,50 @@ def summary(fnode, name_map=None, call_alias=None, unroll=(0, 1, 2), ignore_call
                 for n in ast.walk(st0):
                     if isinstance(n, ast.Expr):
                         guarded.add(id(n))
-    for p in paths:
-        b = T.Builder(env=env, name_map=name_map, call_alias=call_alias)
-        b.strict_casts = strict_casts
-        lits = []
-        effects = []
+    hcache = {}
+
+    def helper_items(call, b):
+        """summary items of an inlinable callee with its parameters bound to the argument terms, or None"""
+        if inline is None:
+            return None
+        g = inline.target(call)
+        if g is None:
+            return None
+        henv = inline.bind(g, call, b)
+        if henv is None:
+            return None
+        key = (g.anchor, tuple(sorted((k, repr(v)) for k, v in henv.items())))
+        if key not in hcache:
+            try:
+                hcache[key] = summary(g.node, name_map=name_map, call_alias=call_alias, unroll=unroll, ignore_calls=ignore_calls, env=henv,
+                                      track_calls=track_calls, strict_casts=strict_casts, inline=inline.deeper(g))
+            except (AnalysisError, RecursionError):
+                hcache[key] = None
+        items = hcache[key]
+        if items is None or len(items) > 24:
+            return None
+        return sorted(items, key=repr)
+
+    def finish(p, lits, effects, outcome):
+        if outcome is None:
+            outcome = ('return', ('const', None)) if p.exit in ('fall', 'return') else (p.exit,)
+        # a conditional expression in the returned value is a branch: `return a if c else b` == `if c: return a` / `return b`
+        if outcome[0] == 'return' and isinstance(outcome[1], tuple) and T.find_ifexp(outcome[1]) is not None:
+            try:
+                split = T.cases(outcome[1], limit=32)
+            except AnalysisError:
+                split = [((), outcome[1])]
+            for cl, leaf in split:
+                out.add((tuple(lits) + tuple(_lit(c, tr) for c, tr in cl), tuple(effects), ('return', leaf)))
+            return
+        out.add((tuple(lits), tuple(effects), outcome))
+
+    def walk(p, i, b, lits, effects):
+        events = p.events
         outcome = None
-        infeasible = False
-        for e in p.events:
+        while i < len(events):
+            e = events[i]
+            i += 1
             if e[0] == 'cond':
                 tt = T.simp(b.t(e[1]))
                 truth = e[2]
@@ -95,8 +178,7 @@ def summary(fnode, name_map=None, call_alias=None, unroll=(0, 1, 2), ignore_call
                 cv = _const_truth(tt)
                 if cv is not None:
                     if cv != truth:
-                        infeasible = True
-                        break
+                        return
                     continue
                 lits.append(('T' if truth else 'F', tt))
             elif e[0] == 'iter':
@@ -120,6 +202,28 @@ def summary(fnode, name_map=None, call_alias=None, unroll=(0, 1, 2), ignore_call
                 st = e[1]
                 if isinstance(st, ast.Expr) and isinstance(st.value, ast.Constant):
                     continue   # docstring
+                # a call to a helper of the analysed package that is the whole right-hand side / returned value / statement is
+                # looked through: the path forks over the helper's own paths
+                hcall = None
+                if isinstance(st, (ast.Return, ast.Expr)) and isinstance(st.value, ast.Call):
+                    hcall = st.value
+                elif isinstance(st, ast.Assign) and len(st.targets) == 1 and isinstance(st.value, ast.Call) and _is_plain_local_store(st, None):
+                    hcall = st.value
+                items = helper_items(hcall, b) if hcall is not None else None
+                if items is not None:
+                    for hl, he, ho in items:
+                        b2 = b.copy()
+                        l2, e2 = list(lits) + list(hl), list(effects) + list(he)
+                        if ho[0] != 'return':
+                            finish(p, l2, e2, ho)        # the helper raises: so does the caller
+                            continue
+                        if isinstance(st, ast.Return):
+                            finish(p, l2, e2, ('return', ho[1]))
+                            continue
+                        if isinstance(st, ast.Assign):
+                            b2.assign(st.targets[0], ho[1])
+                        walk(p, i, b2, l2, e2)
+                    return
                 effects.extend(_tracked(st, b, track_calls))
                 if isinstance(st, ast.Return):
                     outcome = ('return', T.simp(b.t(st.value)) if st.value is not None else ('const', None))
@@ -158,20 +262,12 @@ def summary(fnode, name_map=None, call_alias=None, unroll=(0, 1, 2), ignore_call
                     effects.append(('assert', T.simp(b.t(st.test))))
                 else:
                     effects.append(('stmt', unparse(st)))
-        if infeasible:
-            continue
-        if outcome is None:
-            outcome = ('return', ('const', None)) if p.exit in ('fall', 'return') else (p.exit,)
-        # a conditional expression in the returned value is a branch: `return a if c else b` == `if c: return a` / `return b`
-        if outcome[0] == 'return' and isinstance(outcome[1], tuple) and T.find_ifexp(outcome[1]) is not None:
-            try:
-                split = T.cases(outcome[1], limit=32)
-            except AnalysisError:
-                split = [((), outcome[1])]
-            for cl, leaf in split:
-                out.add((tuple(lits) + tuple(_lit(c, tr) for c, tr in cl), tuple(effects), ('return', leaf)))
-            continue
-        out.add((tuple(lits), tuple(effects), outcome))
+        finish(p, lits, effects, outcome)
+
+    for p in paths:
+        b = T.Builder(env=env, name_map=name_map, call_alias=call_alias)
+        b.strict_casts = strict_casts
+        walk(p, 0, b, [], [])
     return out
 
 
@@ -179,6 +275,19 @@ def summary_of_source(src, **kw):
     from .normalize import normalize_tree
     node = normalize_tree(ast.parse(src)).body[0]     # the same normal form as the analysed program
     return summary(node, **kw)
+
+
+def agree(fnode, src, **kw):
+    """(summary of the analysed function, summary of the reference source).  The analysed side may look through helpers of the
+    package that the reference does not mention (an extracted private function, a nested def), so that a refactoring which
+    only moves code into such a helper compares equal."""
+    from .srcmodel import CURRENT_MODEL
+    want = summary_of_source(src, **kw)
+    known = set(n.id for n in ast.walk(ast.parse(src)) if isinstance(n, ast.Name))
+    fi = getattr(fnode, '_finfo', None)
+    inl = Inline(CURRENT_MODEL[0], fi, known) if (fi is not None and CURRENT_MODEL[0] is not None) else None
+    got = summary(fnode, inline=inl, **kw)
+    return got, want
 
 
 def diff(a, b, limit=2):
